@@ -1,0 +1,117 @@
+//go:build verif
+
+package sio
+
+import (
+	"reflect"
+	"time"
+
+	eioparser "github.com/karagenc/socket.io-go/engine.io/parser"
+	"github.com/karagenc/socket.io-go/internal/verifhook"
+)
+
+// Exports for the runtime-verification harness (build tag `verif` only).
+
+func VerifHookSet(name string, f func()) { verifhook.Set(name, f) }
+func VerifHookHits(name string) int64    { return verifhook.Hits(name) }
+
+// VerifPacketQueue wraps the unexported per-connection packet queue.
+type VerifPacketQueue struct{ pq *packetQueue }
+
+func VerifNewPacketQueue() *VerifPacketQueue { return &VerifPacketQueue{pq: newPacketQueue()} }
+
+func (q *VerifPacketQueue) Add(packets ...*eioparser.Packet) { q.pq.add(packets...) }
+func (q *VerifPacketQueue) Poll() (packets []*eioparser.Packet, ok, closed bool) {
+	return q.pq.poll()
+}
+func (q *VerifPacketQueue) Get() []*eioparser.Packet { return q.pq.get() }
+func (q *VerifPacketQueue) Reset()                   { q.pq.reset() }
+func (q *VerifPacketQueue) Close()                   { q.pq.close() }
+func (q *VerifPacketQueue) WaitForDrain(timeout time.Duration) (timedout bool) {
+	return q.pq.waitForDrain(timeout)
+}
+
+// VerifPollAndSend runs the real sender loop against a recording sink.
+func (q *VerifPacketQueue) VerifPollAndSend(send func(packets ...*eioparser.Packet)) {
+	q.pq.pollAndSend(verifSink{send: send})
+}
+
+type verifSink struct {
+	send func(packets ...*eioparser.Packet)
+}
+
+func (s verifSink) ID() string                        { return "verif" }
+func (s verifSink) PingInterval() time.Duration       { return 0 }
+func (s verifSink) PingTimeout() time.Duration        { return 0 }
+func (s verifSink) TransportName() string             { return "verif" }
+func (s verifSink) Send(packets ...*eioparser.Packet) { s.send(packets...) }
+func (s verifSink) Close()                            {}
+
+// VerifBackoff computes one back-off delay with the attempt counter preset.
+func VerifBackoff(min, max time.Duration, jitter float32, attempt uint32) time.Duration {
+	b := newBackoff(min, max, jitter)
+	b.numAttempts = attempt
+	return b.duration()
+}
+
+// VerifBackoffSeq returns n consecutive delays of one back-off instance.
+func VerifBackoffSeq(min, max time.Duration, jitter float32, n int) []time.Duration {
+	b := newBackoff(min, max, jitter)
+	out := make([]time.Duration, n)
+	for i := range out {
+		out[i] = b.duration()
+	}
+	return out
+}
+
+// VerifHandlerStore wraps the unexported lifecycle handler registry.
+type VerifHandlerStore struct{ s *handlerStore[*func()] }
+
+func VerifNewHandlerStore() *VerifHandlerStore {
+	return &VerifHandlerStore{s: newHandlerStore[*func()]()}
+}
+func (h *VerifHandlerStore) On(f *func())     { h.s.on(f) }
+func (h *VerifHandlerStore) Once(f *func())   { h.s.once(f) }
+func (h *VerifHandlerStore) Off(f ...*func()) { h.s.off(f...) }
+func (h *VerifHandlerStore) OffAll()          { h.s.offAll() }
+func (h *VerifHandlerStore) Fire() {
+	h.s.forEach(func(f *func()) { (*f)() }, false)
+}
+
+// VerifEventHandlerStore wraps the unexported event handler registry.
+type VerifEventHandlerStore struct{ s *eventHandlerStore }
+
+func VerifNewEventHandlerStore() *VerifEventHandlerStore {
+	return &VerifEventHandlerStore{s: newEventHandlerStore()}
+}
+func (h *VerifEventHandlerStore) On(event string, f any) {
+	eh, err := newEventHandler(f)
+	if err != nil {
+		panic(err)
+	}
+	h.s.on(event, eh)
+}
+func (h *VerifEventHandlerStore) Once(event string, f any) {
+	eh, err := newEventHandler(f)
+	if err != nil {
+		panic(err)
+	}
+	h.s.once(event, eh)
+}
+func (h *VerifEventHandlerStore) Off(event string, f ...any) {
+	// Same conversion as the public OffEvent methods.
+	values := make([]reflect.Value, len(f))
+	for i := range values {
+		values[i] = reflect.ValueOf(f[i])
+	}
+	h.s.off(event, values...)
+}
+func (h *VerifEventHandlerStore) OffAll() { h.s.offAll() }
+func (h *VerifEventHandlerStore) Fire(event string) {
+	for _, eh := range h.s.getAll(event) {
+		eh.call()
+	}
+}
+
+// VerifEIOSessionCount returns the number of live Engine.IO sessions.
+func VerifEIOSessionCount(s *Server) int { return s.eio.VerifSessionCount() }
